@@ -35,7 +35,7 @@ def run(ctx):
         nb = 0
         for c, e, m in zip(cases, eng, mod):
             for dv in S.compare_case(c, e, m):
-                if dv["field"] in ("best_move", "score", "engine-panic", "bestmove-line"):
+                if dv["field"] in ("best_move", "score", "engine-panic", "bestmove-line", "writes", "nodes"):
                     nb += 1
                     if nb <= 3:
                         rp = C.write_replay(prop, {"kind": "cache-on search on a mate position differs from the model", "divergence": dv, "case": c})
